@@ -51,20 +51,28 @@ def load_facts(reg):
     """values of module-level globals the verified bodies branch on (e.g. version switches), read from the real
     modules under /venv/bin/python on every run"""
     req = getattr(reg, 'fact_globals', [])
+    exprs = getattr(reg, 'fact_exprs', [])
     reg.global_values = {}
-    if not req:
+    reg.fact_values = {}
+    if not req and not exprs:
         return
     env = dict(os.environ)
     env['PYTHONPATH'] = os.environ.get('VERIF_REPO', '/repo') + os.pathsep + VERIF
     try:
-        p = subprocess.run([NATIVE_PY, '-m', 'replay.facts', json.dumps(req)], cwd=VERIF, env=env, capture_output=True,
+        p = subprocess.run([NATIVE_PY, '-m', 'replay.facts', json.dumps(req), json.dumps(exprs)], cwd=VERIF, env=env, capture_output=True,
                            text=True, timeout=120)
         vals = json.loads(p.stdout.strip().splitlines()[-1])
     except Exception:
         vals = {}
     for k, val in vals.items():
-        if not isinstance(val, dict):
+        if k.startswith('expr:'):
+            if not (isinstance(val, dict) and 'error' in val):
+                reg.fact_values[k[5:]] = val
+        elif not isinstance(val, dict):
             reg.global_values[k] = val
+    hook = getattr(reg, 'after_facts', None)
+    if hook:
+        hook(reg)
 
 
 def known_findings():
